@@ -551,6 +551,43 @@ func TestVerifEnum(t *testing.T) {
 		}
 	}
 
+	// 4b. every chunk length, not only the prefix-size boundaries: an implementation may treat sizes
+	// around an MTU or a buffer size of its own differently
+	r.Begin("every-length", "Data(n) for EVERY n in [0,20000] and within 40 of 2^15, 2^16, 2^17, 2^18, 2^19, 2^20-1, written between a 1-byte chunk, a padding and a 2-byte chunk; WriteData must report n bytes and the stream must read back as exactly [1, n, 2] bytes, with a full reader and with a reader that returns (0,nil) before every read")
+	var everyN []int
+	for n := 0; n <= 20000; n++ {
+		everyN = append(everyN, n)
+	}
+	for _, c := range []int{1 << 15, 1 << 16, 1 << 17, 1 << 18, 1 << 19, 1<<20 - 41} {
+		for d := -40; d <= 40; d++ {
+			if n := c + d; n < 1<<20 {
+				everyN = append(everyN, n)
+			}
+		}
+	}
+	for _, n := range everyN {
+		if !r.Mine() {
+			continue
+		}
+		if r.TimeUp() {
+			break
+		}
+		seq := []op{{true, 1}, {true, n}, {false, 3}, {true, 2}}
+		stream, want, err := encode(seq)
+		r.CaseN(1)
+		if err != nil {
+			r.Fail("every-length:encode-error", err.Error(), describe(seq))
+			continue
+		}
+		ref := refResult{chunks: want, err: io.EOF}
+		for _, st := range []int{stFull, stZeroBefore} {
+			st := st
+			checkDecode(r, "every-length", stream, ref, &scriptReader{data: stream, mode: st}, func() interface{} {
+				return map[string]interface{}{"ops": describe(seq), "reader": strategyName[st]}
+			})
+		}
+	}
+
 	// 5. WritePadding(n) occupies exactly n bytes and decodes to nothing
 	r.Begin("padding", "WritePadding(n) for every n in [0,70000]: exactly n bytes, decoded as no data then EOF")
 	var pb bytes.Buffer
